@@ -86,6 +86,23 @@ Theorem C03_payload_equal :
 Proof. exact fetch_keeps_full. Qed.
 Print Assumptions C03_payload_equal.
 
+(* Repository.fetch(source) without a revision: afterwards the target sees every revision the
+   source has, has lost nothing, a second such fetch copies nothing; an unstacked complete target
+   stays complete.  No guard is needed: everything missing is requested. *)
+Theorem C03_fetch_all_complete :
+  forall U c F T n T', fetch_all U c F T = (FOk, n, T') ->
+  (forall a, srcp U a = true -> In a (vis_of F T')) /\
+  incl (revs T) (revs T') /\ incl (invs T) (invs T') /\ incl (texts T) (texts T') /\
+  fetch_all U c F T' = (FOk, 0, T').
+Proof. exact fetch_all_complete. Qed.
+Print Assumptions C03_fetch_all_complete.
+
+Theorem C03_fetch_all_payload :
+  forall U c F T out n T', wf_univ U = true ->
+  fetch_all U c F T = (out, n, T') -> revs F = [] -> full U T -> full U T'.
+Proof. exact fetch_all_keeps_full. Qed.
+Print Assumptions C03_fetch_all_payload.
+
 (* Without the guard both C03_fetch_complete and C03_payload_equal are FALSE for
    find_ghosts=False: witness = a target {r0, r2} whose r2 has the parent r1 it lacks,
    a source that has r1, r4 (child of r1) and r5 = merge(r3, r4).  Fetching r5 leaves
